@@ -482,3 +482,74 @@ def contracts():
             c.clause_prefixes = ["serialized form is JSON-native", "round-trip does not raise"]
             extra.append(c)
     return _c16_base_ser() + extra
+
+
+# ---------------------------------------------------------------------------------------------
+# concrete probe: text-valued parameters.  The validators of String (re.match: a match at the START of
+# the value) and Color, and the serialized NaN / infinities of Number, against whatever the schema says
+# — also for a schema builder that does not exist yet on this tree
+# ---------------------------------------------------------------------------------------------
+TEXT_SCHEMA_REPLAY = '''import sys, os, re, json, itertools
+sys.path.insert(0, os.environ.get('PYVC_REPO', '/repo'))
+import param
+bad = []
+def accepts(schema, v):
+    """draft-07 meaning of the keywords param emits for scalars (unknown keywords constrain nothing)"""
+    if 'anyOf' in schema:
+        return any(accepts(s, v) for s in schema['anyOf'])
+    t = schema.get('type')
+    ok = {None: True, 'string': isinstance(v, str), 'null': v is None, 'boolean': isinstance(v, bool),
+          'number': isinstance(v, (int, float)) and not isinstance(v, bool),
+          'integer': isinstance(v, int) and not isinstance(v, bool), 'array': isinstance(v, list),
+          'object': isinstance(v, dict)}.get(t, True)
+    if not ok:
+        return False
+    if isinstance(v, str):
+        if 'pattern' in schema and re.search(schema['pattern'], v) is None:
+            return False
+        if 'minLength' in schema and len(v) < schema['minLength']:
+            return False
+        if 'maxLength' in schema and len(v) > schema['maxLength']:
+            return False
+    if 'enum' in schema and v not in schema['enum']:
+        return False
+    if isinstance(v, (int, float)) and not isinstance(v, bool) and v == v:
+        if 'minimum' in schema and not v >= schema['minimum']: return False
+        if 'maximum' in schema and not v <= schema['maximum']: return False
+        if 'exclusiveMinimum' in schema and not v > schema['exclusiveMinimum']: return False
+        if 'exclusiveMaximum' in schema and not v < schema['exclusiveMaximum']: return False
+    return True
+STRINGS = [(None, ['', 'x', 'RUN-17']), ('[A-Z]+', ['RUN', 'RUN-17', 'Ab']), ('ms|s', ['s', 'ms', 'sec', 'msec']),
+           ('^a', ['a', 'ab']), ('a$', ['a']), ('(ab)*', ['', 'abab', 'abx', 'x']), ('[0-9]{2}', ['12', '123x']), ('.', ['xy'])]
+for (rx, vals), aN in itertools.product(STRINGS, (False, True)):
+    for v in vals + ([None] if aN else []):
+        class S(param.Parameterized):
+            s = param.String(default=v, regex=rx, allow_None=aN)
+        o = S()
+        for holder, how in ((S, 'class'), (o, 'instance')):
+            sv = json.loads(holder.param.serialize_parameters(subset=['s']))['s']
+            schema = holder.param.schema(subset=['s'])['s']
+            if not accepts(schema, sv):
+                bad.append('String(regex=%r, allow_None=%r) holding %r (%s): serialized %r is refused by its schema %r' % (rx, aN, v, how, sv, schema))
+for v, kw in itertools.product([float('inf'), float('-inf'), float('nan'), 0.5, 3], ({}, {'bounds': (0, None)}, {'bounds': (None, 10)}, {'allow_None': True})):
+    if kw.get('bounds') == (0, None) and (v != v or v < 0): continue
+    if kw.get('bounds') == (None, 10) and (v != v or v > 10): continue
+    class N(param.Parameterized):
+        n = param.Number(default=v, **kw)
+    sv = json.loads(N.param.serialize_parameters(subset=['n']))['n']
+    schema = N.param.schema(subset=['n'])['n']
+    if not accepts(schema, sv):
+        bad.append('Number(%s) holding %r: serialized %r is refused by its schema %r' % (kw, v, sv, schema))
+for v in ('#fff', '#A1B2C3', 'abcdef', 'red'):
+    class C(param.Parameterized):
+        c = param.Color(default=v)
+    sv = json.loads(C.param.serialize_parameters(subset=['c']))['c']
+    schema = C.param.schema(subset=['c'])['c']
+    if not accepts(schema, sv):
+        bad.append('Color holding %r: serialized %r is refused by its schema %r' % (v, sv, schema))
+if bad:
+    print('REPRODUCED: ' + bad[0]); sys.exit(1)
+print('NOT-REPRODUCED'); sys.exit(0)
+'''
+
+PROBES = globals().get("PROBES", []) + [("text-valued parameters and non-finite numbers: the serialized value is accepted by the schema", TEXT_SCHEMA_REPLAY)]
